@@ -81,8 +81,32 @@ let cmd_iof rest =
       String.concat " " (List.map q_str (index_of_fraction (q_of_frac an ad) (z_of_int len) (List.map q_of_int data) fs))
   | _ -> "BAD"
 
+let split_out r =
+  match r with
+  | Err e -> Printf.sprintf "err %d" (iz e)
+  | Ok (b, cs) ->
+      String.concat " " ("ok" :: (if b then "1" else "0") :: string_of_int (List.length cs)
+                         :: List.map (fun c -> join [iz c.ct; iz c.clen; iz c.cdt]) cs)
+
+(* split t dt area min_area orig_dt k splits[k] *)
+let cmd_split rest =
+  match ints rest with
+  | t :: dt :: area :: mina :: odt :: k :: r ->
+      split_out (split_peak (z_of_int t) (z_of_int dt) (z_of_int area) (z_of_int mina) (z_of_int odt) (zl (take k r)))
+  | _ -> "BAD"
+
+(* split_lm t dt area min_area orig_dt min_height min_ratio n w[n] *)
+let cmd_split_lm rest =
+  match ints rest with
+  | t :: dt :: area :: mina :: odt :: mh :: mr :: n :: r ->
+      split_out (split_peak_local_minimum (z_of_int t) (z_of_int dt) (z_of_int area) (z_of_int mina) (z_of_int odt)
+                   (zl (take n r)) (z_of_int mh) (z_of_int mr))
+  | _ -> "BAD"
+
 let handle toks =
   match toks with
+  | "split" :: rest -> cmd_split rest
+  | "split_lm" :: rest -> cmd_split_lm rest
   | "iof" :: rest -> cmd_iof rest
   | "sma" :: rest ->
       (match ints rest with
